@@ -101,6 +101,15 @@ fn parse_date_time(s: &str) -> Result<DateTime<FixedOffset>, String> {
     }
 }
 
+/// Parses an integer greater than zero
+fn parse_positive_usize(s: &str) -> Result<usize, String> {
+    match s.parse::<usize>() {
+        Ok(n) if n >= 1 => Ok(n),
+        Ok(n) => Err(format!("{n} is not in 1..")),
+        Err(e) => Err(format!("{e}: {s}")),
+    }
+}
+
 /// Parses string with format: `<device>:<seq parallelism>[,<rand parallelism>]`
 fn parse_thread_count_option(s: &str) -> Result<(OsString, Parallelism), String> {
     let (key, value) = if s.contains(':') {
@@ -627,7 +636,7 @@ pub struct DedupeConfig {
     /// `--rf-over` value in the earlier `fclones group` run.
     #[arg(
         short = 'n', long, value_name = "COUNT",
-        value_parser = clap::value_parser!(u64).range(1..)
+        value_parser = parse_positive_usize
     )]
     pub rf_over: Option<usize>,
 
